@@ -1021,10 +1021,112 @@ fn soak(sys: &'static str, cap: usize, steps: usize) -> Option<(Case, Mismatch)>
     }
 }
 
+/// 16-bit boundary probe: one long deterministic run on a buffer whose capacity lies around 2^16
+/// (an index or length kept in 16 bits would wrap), O(1) operations at every step and a full
+/// iteration / slice comparison every 8191 steps; the buffer is filled, over-filled (evicting),
+/// drained and refilled so that `start` travels round the storage more than twice.
+fn big_cap_run(sys: &str, cap: usize) -> Option<(String, String)> {
+    let tag = |t: usize, what: &str| format!("{sys} buffer of capacity {cap}, step {t} of the 16-bit boundary run: {what}");
+    let total = 5 * cap + 1000;
+    if sys == "bounded" {
+        let mut b = Bounded::from(vec![0u32; cap]);
+        let mut q: VecDeque<u32> = VecDeque::new();
+        for t in 0..total {
+            // phases of cap/2 steps: push, push, push (over-fill), pop, pop, pop+push alternating ...
+            let phase = (t / (cap / 2 + 1)) % 6;
+            let push = matches!(phase, 0 | 1 | 2) || (phase == 5 && t % 2 == 0);
+            if push {
+                let v = t as u32 + 1;
+                let ev = b.push(v);
+                let exp = if q.len() == cap { q.pop_front() } else { None };
+                q.push_back(v);
+                if ev != exp {
+                    return Some(("bounded.push".into(), tag(t, &format!("push returned {ev:?}, expected {exp:?}"))));
+                }
+            } else {
+                let got = b.pop();
+                let exp = q.pop_front();
+                if got != exp {
+                    return Some(("bounded.pop".into(), tag(t, &format!("pop returned {got:?}, expected {exp:?}"))));
+                }
+            }
+            let n = q.len();
+            if b.len() != n || b.is_full() != (n == cap) || b.is_empty() != (n == 0) || b.max_len() != cap {
+                return Some(("bounded.len".into(), tag(t, &format!("len {} is_full {} is_empty {}, reference length {n}", b.len(), b.is_full(), b.is_empty()))));
+            }
+            for i in [0usize, 1, n / 2, n.wrapping_sub(1), n, n + 1, 65535, 65536, 65537] {
+                let exp = q.get(i);
+                if b.get(i) != exp {
+                    return Some(("bounded.get".into(), tag(t, &format!("get({i}) = {:?}, expected {exp:?} (len {n})", b.get(i)))));
+                }
+            }
+            if t % 8191 == 0 || t + 1 == total {
+                if !b.iter().eq(q.iter()) {
+                    return Some(("bounded.iter".into(), tag(t, "iter() differs from the reference queue")));
+                }
+                let (s1, s2) = b.slices();
+                if !s1.iter().chain(s2.iter()).eq(q.iter()) {
+                    return Some(("bounded.slices".into(), tag(t, "slices() concatenated differ from the reference queue")));
+                }
+            }
+        }
+    } else {
+        let mut b = Fixed::from(vec![0u32; cap]);
+        let mut q: VecDeque<u32> = std::iter::repeat(0).take(cap).collect();
+        let mut pf = 0usize; // physical slot of the first element
+        for t in 0..total {
+            if t % 4099 == 4098 {
+                // set_first takes an absolute slot index (modulo N): the element stored in that slot
+                // becomes the first one
+                let k = (t / 4099 * 7919) % (2 * cap);
+                b.set_first(k);
+                q.rotate_left((k % cap + cap - pf) % cap);
+                pf = k % cap;
+            } else {
+                pf = (pf + 1) % cap;
+                let v = t as u32 + 1;
+                let got = b.push(v);
+                let exp = q.pop_front().unwrap();
+                q.push_back(v);
+                if got != exp {
+                    return Some(("fixed.push".into(), tag(t, &format!("push returned {got}, expected {exp} (the value pushed {cap} pushes earlier)"))));
+                }
+            }
+            if b.len() != cap {
+                return Some(("fixed.len".into(), tag(t, &format!("len() = {}", b.len()))));
+            }
+            for i in [0usize, 1, cap / 2, cap - 1, cap, cap + 1, 65535, 65536, 65537, 2 * cap - 1] {
+                let exp = q[i % cap];
+                if *b.get(i) != exp || b[i] != exp {
+                    return Some(("fixed.get".into(), tag(t, &format!("get({i}) = {}, index = {}, expected {exp}", b.get(i), b[i]))));
+                }
+            }
+            if t % 8191 == 0 || t + 1 == total {
+                if !b.iter().eq(q.iter()) {
+                    return Some(("fixed.iter".into(), tag(t, "iter() differs from the reference")));
+                }
+                let (s1, s2) = b.slices();
+                if !s1.iter().chain(s2.iter()).eq(q.iter()) {
+                    return Some(("fixed.slices".into(), tag(t, "slices() concatenated differ from the reference")));
+                }
+                if !b.iter_loop().take(cap + 3).eq(q.iter().cycle().take(cap + 3)) {
+                    return Some(("fixed.iter_loop".into(), tag(t, "iter_loop() differs from the reference")));
+                }
+            }
+        }
+    }
+    None
+}
+
 fn main() {
     let _final_guard = common::FinalGuard::new();
     let ctx: &'static Ctx = Ctx::leak("C06", "release");
     if let Some(v) = ctx.replay_case() {
+        if v["note"] == "16-bit boundary run" {
+            let _guard_scope = guard::scoped(&v.to_string());
+            let sys = if v["sys"] == "fixed" { "fixed" } else { "bounded" };
+            ctx.finish_replay(catch(|| big_cap_run(sys, v["cap"].as_u64().unwrap_or(65536) as usize)).unwrap_or_else(|p| Some(("panic".into(), p))).map(|e| format!("{}: {}", e.0, e.1)));
+        }
         let case = Case::from_json(&v).unwrap_or_else(|| {
             eprintln!("bad C06 case {v}");
             std::process::exit(2)
@@ -1157,6 +1259,20 @@ fn main() {
             }
         }
     }
+    // 16-bit boundary probes
+    let big_caps: &[usize] = if ctx.thorough() { &[65535, 65536, 65537, 131073] } else { &[65535, 65536, 65537] };
+    let jobs: Vec<(&str, usize)> = ["bounded", "fixed"].into_iter().flat_map(|s| big_caps.iter().map(move |&c| (s, c))).collect();
+    jobs.par_iter().for_each(|&(sys, cap)| {
+        let case = json!({"sys":sys,"kind":"vec","cap":cap,"note":"16-bit boundary run"});
+        let _guard_scope = guard::scoped(&case.to_string());
+        ctx.add_evals((5 * cap + 1000) as u64);
+        match catch(|| big_cap_run(sys, cap)) {
+            Ok(None) => ctx.observe(common::fnv_str(&format!("big{sys}{cap}"))),
+            Ok(Some((k, m))) => ctx.violation(&k, case, m, Some(&|| big_cap_run(sys, cap).map(|e| e.1))),
+            Err(p) => ctx.violation(&format!("{sys}.panic"), case, format!("{sys} buffer of capacity {cap}, 16-bit boundary run: panicked: {p}"), None),
+        }
+    });
+    ctx.rule("16-bit boundary probes: capacities 65535, 65536, 65537 (thorough: also 131073), one deterministic run of 5 x capacity + 1000 operations each (fill, over-fill with eviction, drain, alternate; set_first rotations for the fixed buffer): every push / pop return value, len / is_full / is_empty, get and index at 0, 1, len/2, len-1, len, len+1, 65535, 65536, 65537, and every 8191 steps iter / slices / iter_loop against a VecDeque");
     ctx.rule(&format!("soak probes: one deterministic history of {soak_steps} operations (pushes interleaved with the whole alphabet) per buffer kind and capacity in 1,3,4,7,64 on a single real buffer, same reference queue (single executions, labelled)"));
     ctx.set("exhaustive", json!(true));
     ctx.set("exhaustive_scope", json!(format!("every raw state x every action for capacities 1..={maxcap}; capacities above are not explored")));
